@@ -988,6 +988,8 @@ non-trivial = accepted literal; distinct = distinct canonical token streams".to_
 	flush(cx, &mut b);
 
 	// every scalar value
+	let thorough = cx.thorough();
+	let sweep_off = (cx.seed % 2) as u32;
 	let mut bc = Batch{class: "character literal (every scalar)", cases: Vec::new()};
 	let mut bs = Batch{class: "string with one raw character (every scalar)", cases: Vec::new()};
 	let mut bu = Batch{class: "string with one \\u{hex} (every scalar)", cases: Vec::new()};
@@ -1000,7 +1002,8 @@ non-trivial = accepted literal; distinct = distinct canonical token streams".to_
 		t.extend_from_slice(&raw);
 		t.push(b'\'');
 		push(cx, &mut bc, t, if printable && c != '\\' {Expect::Num(v as u64)} else {Expect::Reject});
-		if c != '"' && c != '\\'
+		// quick tier: every second scalar (offset rotating with the seed) in the raw-in-a-string sweep; complete in the thorough tier
+		if c != '"' && c != '\\' && (thorough || v < 0x800 || (v + sweep_off) % 2 == 0)
 		{
 			let mut t = vec![b'"'];
 			t.extend_from_slice(&raw);
@@ -1026,6 +1029,23 @@ non-trivial = accepted literal; distinct = distinct canonical token streams".to_
 	push(cx, &mut be, b"\"\"".to_vec(), Expect::Str(vec![]));
 	push(cx, &mut be, b"'''".to_vec(), Expect::Num(39));
 	push(cx, &mut be, b"'\"'".to_vec(), Expect::Num(34));
+	// a backslash followed by a NON-ASCII scalar is never an escape: every scalar whose low byte is one of the escape letters (or 0, u, x),
+	// and random other scalars, in character and in string literals
+	{
+		let mut bn = Batch{class: "backslash + non-ASCII scalar", cases: Vec::new()};
+		let mut scalars: Vec<u32> = Vec::new();
+		for low in [b't', b'n', b'r', b'"', b'\'', b'\\', b'0', b'u', b'x'] {for hi in 1..0x1100u32 {scalars.push(hi << 8 | low as u32);}}
+		for _ in 0..if thorough {40_000} else {4_000} {scalars.push(random_scalar(&mut rng, 0x80) as u32);}
+		for v in scalars
+		{
+			let Some(c) = char::from_u32(v) else {continue;};
+			let raw = utf8(c);
+			push(cx, &mut bn, [&b"'\\"[..], &raw, b"'"].concat(), Expect::Reject);
+			push(cx, &mut bn, [&b"\"\\"[..], &raw, b"\""].concat(), Expect::Reject);
+			if v % 16 == 3 {push(cx, &mut bn, [&b"\"a\\"[..], &raw, b"{41}b\""].concat(), Expect::Reject);}
+		}
+		flush(cx, &mut bn);
+	}
 	// every other escape letter is unknown
 	for e in 0u8..=127
 	{
